@@ -16,7 +16,8 @@ def run(ctx):
               "distinct = distinct case lines"),
         key_fn=key_fn,
         translators=[("gofn-math", "GoFnMathGen.v")], bridge_files=["Gen/GoFnMath_bridge.v",
-                      "Properties/C15_paths.v"],  # which [next] counter a path uses (Model/MapPath.v, Proofs/MapPathProofs.v)
+                      "Properties/C15_paths.v",   # which [next] counter a path uses (Model/MapPath.v, Proofs/MapPathProofs.v)
+                      "Properties/C15_render.v"],  # what the templaters render (Model/Templater.v, Proofs/TemplaterProofs.v)
         trusted=[
             "extraction: ExtrOcamlBasic only; OCaml driver ocaml/C15/main.ml (case grammar -> model datatypes, Go fmt map printing) + ocaml/common/conv.ml",
             "correspondence harness harness/cmd/hC15 + harness/internal/a15 (real scenario http.NewProvider, Provider.Run/Acquire, "
